@@ -300,6 +300,10 @@ class Contains(Unit):
         inside = z3.And(t0 <= tq, tq < t0 + z3.ToReal(N) * dt)
         checks.append(("contains", z3.And(z3.Not(near), b(out["c"]) != inside)))
         checks.append(("in-operator", b(out["in"]) != b(out["c"])))
+        # the interval is half-open: nothing before start_time is a member (the closeness test only protects the stop edge), and an
+        # empty signal (N = 0) contains no time at all, not even its own start_time
+        checks.append(("contains-before-start", z3.And(tq < t0 - (RV(0) if S.symbolic else RV(Fraction(1, 10**9))), b(out["c"]))))
+        checks.append(("contains-start-of-empty-signal", z3.And(N == 0, b(out["c0"]))))
         checks.append(("contains-start", z3.And(N > 0, z3.Not(b(out["c0"])))))
         checks.append(("contains-stop", z3.And(N > 0, b(out["c1"]))))
         return checks
@@ -328,7 +332,16 @@ class FastLenCrop(Unit):
 
         def prev_stub(N):
             if isinstance(N, SInt):
-                return unit._F
+                # F(len(z)): only the call with the signal's own length gets the unconstrained value; any other argument gets a
+                # different unconstrained value of its own (so a rewritten call such as 2*F(len//2) cannot pass by accident)
+                from pbsym.core import Ctx
+                ctx = Ctx.cur
+                if ctx._check(N.e != iterm(unit._N))[0] == "unsat":
+                    return unit._F
+                unit._others = getattr(unit, "_others", 0) + 1
+                g = ctx.int(f"F_other{unit._others}", 0, NMAX)
+                ctx.assume(g.e <= N.e)
+                return g
             return unit._real_prev(N)
         self._real_prev = U.prev_fast_len
         p.append((U, "prev_fast_len", prev_stub))
@@ -339,13 +352,16 @@ class FastLenCrop(Unit):
         F = S.int("F", 0, NMAX)
         if S.symbolic:
             S.assume(iterm(F) <= iterm(N))
-            self._F = F
+            self._F, self._N, self._others = F, N, 0
         else:
-            # concrete run uses the real prev_fast_len; keep only models consistent with it
-            if pb.utils.prev_fast_len(int(N)) != int(F):
-                raise PreconditionFailed("model value of the uninterpreted F(N) is not prev_fast_len(N)")
+            # concrete runs use the real prev_fast_len (decided for every N by C18): the value of F in a model is irrelevant
+            F = pb.utils.prev_fast_len(int(N))
         sig, dt, t0v = make_signal(S, self.clsname, N, self.with_t0)
         return {"sig": sig, "N": N, "F": F, "dt": dt}
+
+    def hunt_candidates(self, ctx):
+        # lengths just above an odd 7-smooth number, a power of two, a prime: where a rewritten call of prev_fast_len differs
+        return [{"N": n} for n in (1, 3, 7, 9, 11, 15, 26, 27, 49, 65, 81, 127, 129, 245, 4375, 4409, 6561, 16807, 2**20 + 1, 3**20 + 5)]
 
     def call(self, a):
         return pb.fast_len(a["sig"])
